@@ -3,7 +3,8 @@
 
     * `not_interior_init` — the run starts behind the leading blanks: not strictly inside a backtick run;
     * `tcallees_G`        — the guarded callees at a fuel meet `TCallees`;
-    * `MissIFP`           — the ONE statement left open for chains with the code-span rule: a real step of
+    * `MissIFP`           — the statement about the code-span cache this file takes as a hypothesis (PROVED for
+      every coherent chain in `Lemmas/C16DocTopMiss.lean`, `missIFP_all`): a real step of
       the top frame that does NOT start at a memo entry `k ↦ v`, `v < pos_max` (a memo miss, or an entry that
       ends at the top `pos_max`) leads to a state with `IFP` (strictly inside a backtick run, behind a
       non-escaped character, the position is marked in `inside_failed`);
@@ -120,7 +121,7 @@ theorem tcallees_G (hc : ChainCoherent cfg = true)
   | zero => exact .inl rfl
   | succ f' => exact .inr (followsHits_guarded cfg true f')
 
-/-- **the statement left open for chains with the code-span rule** (see the file header) -/
+/-- **the code-span cache statement this file is conditional on** (see the file header; `missIFP_all`) -/
 def MissIFP (cfg : Cfg) (content : List Char) (mapping : Srcmap) : Prop :=
   RuleId.backticks ∈ cfg.chain → ∀ (f : Nat) (s s' : IState), Reach cfg content mapping (f + 1) s →
     s.posMax = (IState.init content mapping).posMax → s.level < cfg.maxNesting → s.pos < s.posMax →
